@@ -103,6 +103,28 @@ static J run(const J& c)
                         for (long k2 = 0; k2 < 3; k2++)
                             ev.push(ev_cmp(tup({ i, j, k }), tup({ i2, j2, k2 }), x, mkA(i2, j2, k2)));
             }
+    // the hash follows the value: hash, change a member in place (directly, through as_tuple(), by assignment from
+    // another object), hash again -- and the same for copies of an object that has been hashed before
+    for (long i = 0; i < 3; i++)
+        for (long j = 0; j < 4; j++)
+            for (long k = 0; k < 3; k++)
+            {
+                A3 x = mkA(i, j, k);
+                (void)nitro::lang::hash(x);
+                x.a = static_cast<short>((i + 1) % 3);
+                ev.push(ev_hash(1, tup({ (i + 1) % 3, j, k }), nitro::lang::hash(x)));
+                std::get<1>(x.as_tuple()) = STR[(j + 1) % 4];
+                ev.push(ev_hash(1, tup({ (i + 1) % 3, (j + 1) % 4, k }), x.hash()));
+                A3 y = x; // copy of a hashed object
+                y.b = (k + 2) % 3;
+                ev.push(ev_hash(1, tup({ (i + 1) % 3, (j + 1) % 4, (k + 2) % 3 }), nitro::lang::hash(y)));
+                ev.push(ev_hash(1, tup({ (i + 1) % 3, (j + 1) % 4, k }), nitro::lang::hash(x)));
+                A3 z = mkA(0, 0, 0);
+                (void)z.hash();
+                z = y; // assignment over a hashed object
+                ev.push(ev_hash(1, tup({ (i + 1) % 3, (j + 1) % 4, (k + 2) % 3 }), nitro::lang::hash(z)));
+                ev.push(ev_cmp(tup({ (i + 1) % 3, (j + 1) % 4, (k + 2) % 3 }), tup({ (i + 1) % 3, (j + 1) % 4, (k + 2) % 3 }), z, y));
+            }
     ev.push(ev_done(1, 3, { { 1, 3 } }));
     // ---- family 2: (double, int) with signed zeros ----------------------------------------------------------
     for (long i = 0; i < 3; i++)
@@ -179,7 +201,10 @@ static J run(const J& c)
                 std::size_t size = 0;
                 if (fam == 1)
                 {
-                    A3 v = mkA(I(0), I(1), I(2));
+                    // the key object is built as another value, hashed once, and then changed into the wanted value
+                    A3 v = mkA((I(0) + 1) % 3, I(1), I(2));
+                    (void)sa.count(v);
+                    v.a = static_cast<short>(I(0));
                     if (op == "ins")
                         res = sa.insert(v).second;
                     else if (op == "find")
